@@ -407,7 +407,9 @@ func (c *Checked) checkLogRules(i int, op Op, res *OpResult, evs []Event) {
 		e := &evs[k]
 		switch e.Kind {
 		case EvCallback:
-			if f := &c.H.Funcs[e.Fn]; f.Reenter && f.ReCB {
+			// (a callback under a callback-panic fault panics before it issues
+			// its nested request)
+			if f := &c.H.Funcs[e.Fn]; f.Reenter && f.ReCB && !e.CB.Panicked {
 				inCB[e.Fn] = true
 			}
 		case EvNested:
